@@ -126,7 +126,9 @@ func failingAct(k string) bool {
 	return false
 }
 
-func replyAct(k string) bool { return k == "reply" || k == "" || k == "reply_twice" || k == "reply_many" }
+func replyAct(k string) bool {
+	return k == "reply" || k == "" || k == "reply_twice" || k == "reply_many"
+}
 
 // tokenUses counts ops per token.
 func tokenUses(h *History) map[string]int {
